@@ -101,6 +101,14 @@ func (env *SpecEnv) call(x ECall, hint types.Type) Value {
 			a := env.evalTerm(x.Args[0], nil)
 			b := env.evalTerm(x.Args[1], a.T)
 			return Term{S: sx("=", sx("(_ map and)", a.S, b.S), sx(sx("as const", tc.sortOf(a.T)), "false")), T: types.Typ[types.Bool]}
+		case "prev":
+			// prev(e): the value e had at the head of this loop iteration (only in 'loop N atback' clauses)
+			if env.prevSt == nil {
+				sfail("prev() is only available in loop atback clauses")
+			}
+			n := env.sub()
+			n.st = env.prevSt
+			return n.eval(x.Args[0], hint)
 		case "allocated":
 			a := env.evalTerm(x.Args[0], nil)
 			if isInterface(a.T) {
